@@ -445,3 +445,9 @@ def run(F, rep):
     import core
     import c07
     c07.run(F, core.Borrowed(rep, only={'C07.L1'}))
+
+    # ------------------------------------------------------------------ R2: self-recursion makes progress (library-wide)
+    import recursion as _rec
+    _rec.rule_progress(F, rep, 'C01.R2', lambda g: '/src/' in g.file, 100, 'the library')
+
+
